@@ -141,11 +141,6 @@ impl<'buf> Session<'buf> {
         }
 
         let resumed = ack.session_present;
-        if !resumed {
-            debug!("Broker started a fresh session; resetting local session state");
-            self.data.reset();
-        }
-
         let local_quota = self.data.outbound.max_inflight();
         let mut send_quota = local_quota;
         let mut max_send_quota = local_quota;
@@ -183,6 +178,12 @@ impl<'buf> Session<'buf> {
         if let Err(err) = property_result {
             self.handle_disconnect();
             return Err(Error::Peer(err));
+        }
+
+        // Only a CONNACK that has been accepted as a whole may discard the local session.
+        if !resumed {
+            debug!("Broker started a fresh session; resetting local session state");
+            self.data.reset();
         }
 
         if resumed {
